@@ -25,6 +25,16 @@ type histParams struct {
 	// FaultySyncPct: share (percent) of explicit Sync calls whose fsync is made to fail (requires core.HBFaults);
 	// the failed Sync must return an error, and only a later successful Sync counts.
 	FaultySyncPct int
+	// FaultyWritePct: share (percent) of top-level Put/Delete calls whose next segment-file write is made to fail,
+	// as a whole or after a prefix (requires core.HBFaults). The call may then return an error; what it did to its
+	// own key is undetermined (before or after) until an acknowledged call settles the key, every other key and every
+	// later acknowledged call are judged as usual.
+	FaultyWritePct int
+	// PartialWrites lets half of the failing writes pass a prefix through first (exploration only, not used by any
+	// registered check: see DESIGN.md section 6, "partial writes").
+	PartialWrites bool
+	// HeaderWriteFaults lets the failing write be the header write of a segment being created (exploration only).
+	HeaderWriteFaults bool
 	// Classify is called before a window write with the key about to be written.
 	Classify func(hb *core.HB, key []byte)
 }
@@ -134,6 +144,9 @@ func genHistory(c *core.Ctx, rng *rand.Rand, base crashfs.Image, admissible []co
 		return nil, err
 	}
 	hb.LiveCheck = p.LiveCheck
+	if !p.HeaderWriteFaults {
+		hb.FailWriteMinOff = 512
+	}
 	if p.Writers {
 		budget := p.WindowBudget
 		if budget == 0 {
@@ -142,7 +155,7 @@ func genHistory(c *core.Ctx, rng *rand.Rand, base crashfs.Image, admissible []co
 		hb.InWindow = windowWriter(hb, rng, ks, valIdx, budget, p.Classify)
 	}
 	bigVal := int(cfg.MaxSeg) + 100 + rng.Intn(300) // a record larger than a whole segment
-	for i := 0; i < p.NOps && hb.Failed == ""; i++ {
+	for i := 0; i < p.NOps && hb.Failed == "" && !hb.Stopped; i++ {
 		key := ks.Keys[rng.Intn(len(ks.Keys))]
 		r := rng.Intn(100)
 		*valIdx++
@@ -183,9 +196,17 @@ func genHistory(c *core.Ctx, rng *rand.Rand, base crashfs.Image, admissible []co
 				vl = bigVal
 				c.Stat("oversize_records", 1)
 			}
-			hb.Put(key, core.MakeVal(*valIdx, vl))
+			if p.FaultyWritePct > 0 && hb.Faults != nil && rng.Intn(100) < p.FaultyWritePct {
+				hb.PutFailing(key, core.MakeVal(*valIdx, vl), p.PartialWrites && rng.Intn(2) == 0)
+			} else {
+				hb.Put(key, core.MakeVal(*valIdx, vl))
+			}
 		case r < 75:
-			hb.Delete(key)
+			if p.FaultyWritePct > 0 && hb.Faults != nil && rng.Intn(100) < p.FaultyWritePct {
+				hb.DeleteFailing(key, p.PartialWrites && rng.Intn(2) == 0)
+			} else {
+				hb.Delete(key)
+			}
 		case r < 75+p.CompactPct:
 			hb.Compact()
 		case r < 75+p.CompactPct+p.SyncPct:
